@@ -72,6 +72,7 @@ def _float(self, n, args):
 
 CALLS = {"float": _float, "np.sqrt": _sqrt, "np.mean": _mean, "np.sum": _sum, "np.abs": _abs, "len": _len,
          "self.align_scores": _align}
+FRESH = {"np.abs", "np.sqrt", "np.sum", "np.mean"}
 ATTRS = {"np.nan": ("RNone", "Res")}
 METHODS = {
     ("Ser", "count"): lambda self, recv, args: (f"(ser_count {recv[0]})", "Q"),
@@ -89,15 +90,15 @@ def metric_defs(tree, cls: str, prefix: str) -> str:
         if len(params) != 3 or params[0] != "self":
             raise TranslateError(f"{cls}.{meth}: unexpected parameters {params}")
         env = {params[1]: ("_p1", "Opaque"), params[2]: ("_p2", "Opaque")}
-        fn = Fn(env, ret, CALLS, ATTRS, METHODS)
+        fn = Fn(env, ret, CALLS, ATTRS, METHODS, fresh_calls=FRESH, strict_inplace=True)
         out.append(fn.function(f, f"{prefix}_{meth}", "(aligned : series * series)", rty))
     f = pyq.find_def(tree, cls, "extract_list_metric")
     params = [a.arg for a in f.args.posonlyargs + f.args.args]
-    fn = Fn({params[1]: (params[1], ("Tup", "Q", "Q"))}, "Res", CALLS, ATTRS, METHODS)
+    fn = Fn({params[1]: (params[1], ("Tup", "Q", "Q"))}, "Res", CALLS, ATTRS, METHODS, fresh_calls=FRESH, strict_inplace=True)
     out.append(fn.function(f, f"{prefix}_extract_list_metric", f"({params[1]} : Q * Q)", "res"))
     f = pyq.find_def(tree, cls, "global_aggregate")
     params = [a.arg for a in f.args.posonlyargs + f.args.args]
-    fn = Fn({params[1]: (params[1], ("List", ("Tup", "Q", "Q")))}, "Res", CALLS, ATTRS, METHODS)
+    fn = Fn({params[1]: (params[1], ("List", ("Tup", "Q", "Q")))}, "Res", CALLS, ATTRS, METHODS, fresh_calls=FRESH, strict_inplace=True)
     out.append(fn.function(f, f"{prefix}_global_aggregate", f"({params[1]} : list (Q * Q))", "res"))
     return "\n".join(out)
 
